@@ -1418,6 +1418,7 @@ class TeX(object):
             letters = list(word.upper())
             for t in self.itertokens():
                 if t.nodeType == Token.ELEMENT_NODE:
+                    self.pushToken(t)
                     break
                 matched.append(t)
                 if t.upper() == letters[0]:
